@@ -34,7 +34,8 @@ LEVEL_NOTE = ("Trusted: Coq kernel + vm_compute; gen/c19.py (fail-closed transla
               "EOF-received states are outside it (C22); the set of functions that write a flow-control field or "
               "call a flow-control primitive is enumerated by the translator (any new one aborts); blocking mode is modelled as "
               "'send not enabled while the window is 0' and exercised by a real multi-threaded transfer; lock-release "
-              "switch points of real two-thread runs are enumerated by a deterministic scheduler; the stub transport "
+              "switch points (and reads of out_window_size / in_window_sofar made outside the channel lock, which are "
+              "themselves reported) of real two-thread runs are enumerated by a deterministic scheduler; the stub transport "
               "reports any send made while the channel lock is held.")
 TECHNIQUE = "Coq proof (accounting invariant over all interleavings) + AST-generated arithmetic + vm_compute differential correspondence"
 
@@ -120,6 +121,51 @@ class LockProxy:
         self.release()
 
 
+FLOW_FIELDS = ("out_window_size", "in_window_sofar")
+_RIGGED = {}
+
+
+def _flow_prop(name):
+    def get(self):
+        v = self.__dict__[name]
+        rig = self.__dict__.get("_rig")
+        if rig is not None:
+            rig(self, name, "read")
+        return v
+
+    def put(self, v):
+        rig = self.__dict__.get("_rig")
+        if rig is not None:
+            rig(self, name, "write")
+        self.__dict__[name] = v
+    return property(get, put)
+
+
+def rig_channel(ch, pair):
+    """Turn the flow-control fields of this Channel instance into observed attributes: every access made by
+    paramiko/channel.py code while the accessing thread does not own the channel lock is recorded (the model's
+    critical sections assume there is none), and an unlocked READ is a switch point of the two-thread scheduler."""
+    import sys
+    cls = ch.__class__
+    if cls not in _RIGGED:
+        _RIGGED[cls] = type("Rigged" + cls.__name__, (cls,), {f: _flow_prop(f) for f in FLOW_FIELDS})
+    ch.__class__ = _RIGGED[cls]
+
+    def rig(self, name, kind):
+        f = sys._getframe(2)
+        fn = f.f_code.co_filename
+        if not fn.endswith("channel.py") or "paramiko" not in fn:
+            return                      # the harness looking at the field
+        if isinstance(self.lock, LockProxy) and self.lock.owner == threading.get_ident():
+            return
+        where = "%s (line %d)" % (f.f_code.co_name, f.f_lineno)
+        pair.unlocked.append((name, kind, where))
+        h = pair.read_hook
+        if h is not None and kind == "read":
+            h()
+    ch.__dict__["_rig"] = rig
+
+
 def parse(raw):
     """(type, chanid, code, payload-length, body-after-chanid)"""
     import struct
@@ -165,6 +211,10 @@ class Pair:
         self.ch[0].combine_stderr = cfg_ba[3]
         for c in self.ch:
             c.settimeout(0.0)
+        self.unlocked = []
+        self.read_hook = None
+        for c in self.ch:
+            rig_channel(c, self)
         self.hand_data = {False: [], True: []}
         self.wire_data = {False: [], True: []}
         self.hand_adj = {False: [], True: []}
@@ -188,6 +238,14 @@ class Pair:
 
     def collect(self):
         """classify what the channels handed to their transports since the last call"""
+        if self.unlocked:
+            name, kind, where = self.unlocked[0]
+            self.problems.append(("unlocked-flow-field-access",
+                                  "Channel.%s %s %s without holding the channel lock (%d such accesses): a concurrent "
+                                  "send / recv / WINDOW_ADJUST can run between this access and the matching update, so the "
+                                  "window accounting is no longer a sequence of critical sections"
+                                  % (where, "reads" if kind == "read" else "writes", name, len(self.unlocked))))
+            self.unlocked = []
         for i in (0, 1):
             if self.t[i].under_lock:
                 self.problems.append(("send-under-channel-lock",
@@ -229,6 +287,17 @@ class Pair:
                 else:
                     self.problems.append(("unexpected-message", "type %d" % t))
             self.t[i].sent = []
+
+    def check_account(self, d):
+        """the sender's window is exactly: initial window + adjusts received - bytes framed (quiescent points only)"""
+        S = self.S(d)
+        built = self.emitted[d] + sum(x[2] for x in self.hand_data[d])
+        want = self.cfg[d][0] + self.adj_delivered[d] - built
+        if S.out_window_size != want:
+            self.problems.append(("window-account-mismatch",
+                                  "sender's out_window_size is %d but initial window %d + adjusts received %d - bytes "
+                                  "framed %d = %d" % (S.out_window_size, self.cfg[d][0], self.adj_delivered[d], built,
+                                                      want)))
 
     def taken(self, d):
         """bytes the application has taken out of the receive buffers of direction d (also by a recv call that
@@ -504,6 +573,8 @@ def run_history(rng, cfg_ab, cfg_ba, nops, codes, settle_end=False):
             for (dd, op, ret, dig) in tr:
                 ops.append((dd, op))
                 out += [ret] + dig + [-20]
+    for d in (False, True):
+        pair.check_account(d)
     return pair, ops, out
 
 
@@ -625,12 +696,19 @@ def run_schedule(pair, a, b, k, watchdog=5.0):
     box = {}
 
     def hook():
-        if threading.get_ident() != box.get("tid") or resume.is_set():
+        if threading.get_ident() != box.get("tid") or resume.is_set() or k == "read":
             return
         count[0] += 1
         if count[0] == k:
             paused.set()
             resume.wait(watchdog * 3)
+
+    def read_hook():
+        # thread 1 has just read a flow-control field without the lock: let thread 2 run before it goes on
+        if threading.get_ident() != box.get("tid") or resume.is_set() or paused.is_set() or k != "read":
+            return
+        paused.set()
+        resume.wait(watchdog * 3)
 
     def t1():
         box["tid"] = threading.get_ident()
@@ -643,6 +721,7 @@ def run_schedule(pair, a, b, k, watchdog=5.0):
             paused.set()
     for c in pair.ch:
         c.lock.hook = hook
+    pair.read_hook = read_hook
     pair.concurrent = True
     th = threading.Thread(target=t1, daemon=True)
     th.start()
@@ -663,6 +742,7 @@ def run_schedule(pair, a, b, k, watchdog=5.0):
     th.join(watchdog)
     for c in pair.ch:
         c.lock.hook = None
+    pair.read_hook = None
     pair.concurrent = False
     if th.is_alive():
         problem = ("schedule-deadlock", "first thread's %r never finishes" % (a[1],))
@@ -696,6 +776,14 @@ def do_schedule(setup, ia, ib, k):
     problem, preempted = run_schedule(pair, a, b, k)
     if problem:
         pair.problems.append(problem)
+    pair.check_account(False)
+    pair.settle(False)
+    # the sender now uses up whatever window it believes it has (the wire oracles see an overrun if it believes wrong)
+    for _ in range(12):
+        if pair.step(False, ("OSend", None, 20000)) <= 0:
+            break
+        pair.step(False, ("OEmit", 0))
+    pair.check_account(False)
     pair.settle(False)
     S, R = pair.S(False), pair.R(False)
     if cfg[0] == cfg[2] and S.out_window_size + R.in_window_sofar != cfg[2]:
@@ -713,17 +801,18 @@ def schedules(ctx, setups=None):
             continue
         for ia in range(len(pool)):
             for ib in range(len(pool)):
-                for k in (1, 2, 3):
+                for k in ("read", 1, 2, 3):
                     pair, preempted = do_schedule(si, ia, ib, k)
                     case = {"sched": True, "setup": si, "cfg": list(cfg), "prefix": [list(o) for o in prefix],
                             "thread1": list(pool[ia]), "thread2": list(pool[ib]),
                             "switch_after_lock_release": k}
                     ctx.count(("sched", si, ia, ib, k), nontrivial=preempted, kind="two-thread-schedule")
-                    for key, what in pair.problems[:2]:
-                        ctx.fail(key, what + " [thread 1 runs %r, is preempted after its release #%d of the channel "
-                                 "lock, thread 2 runs %r, thread 1 resumes]" % (pool[ia], k, pool[ib]),
-                                 case=case, observed=what)
-                    if k > 1 and not preempted:
+                    for key, what in sorted(pair.problems, key=lambda kw: kw[0] == "unlocked-flow-field-access")[:3]:
+                        at = ("right after its first read of a flow-control field outside the channel lock"
+                              if k == "read" else "after its release #%d of the channel lock" % k)
+                        ctx.fail(key, what + " [thread 1 runs %r, is preempted %s, thread 2 runs %r, thread 1 resumes]"
+                                 % (pool[ia], at, pool[ib]), case=case, observed=what)
+                    if k != "read" and k > 1 and not preempted:
                         break       # the op has fewer than k lock releases: larger k is the same sequential run
 
 
